@@ -163,7 +163,8 @@ PROPS = {
         # discharge (next_power_of_two: completely; next_multiple_of: for the alignments that occur) the std contracts the unit assumes
         'k_groups': [{'module': 'ir/layout_checker.rs',
                       'harnesses': [('c19_next_power_of_two_contract', 'complete'),
-                                    ('c19_next_multiple_of_contract_bounded', 'bounded:alignments 1, 2, 4, ... 64')],
+                                    ('c19_next_multiple_of_contract_bounded', 'bounded:alignments 1, 2, 4, ... 64'),
+                                    ('c19_checked_next_multiple_of_contract_bounded', 'bounded:alignments 1, 2, 4, ... 64')],
                       'tier': 'quick'}],
         'design_ref': 'DESIGN.md Part I, I.5',
     },
